@@ -1175,6 +1175,34 @@ def i_DIV(i, fmap):
     fmap[m] = q_[0 : m.size]
 
 
+def i_XADD(i, fmap):
+    fmap[eip] = fmap[eip] + i.length
+    op1, op2 = i.operands
+    a = fmap(op1)
+    b = fmap(op2)
+    x, carry, overflow = AddWithCarry(a, b)
+    fmap[pf] = parity8(x[0:8])
+    fmap[af] = halfcarry(a, b)
+    fmap[zf] = x == 0
+    fmap[sf] = x.bit(-1)
+    fmap[cf] = carry
+    fmap[of] = overflow
+    fmap[op2] = a
+    fmap[op1] = x
+
+
+def i_IDIV(i, fmap):
+    fmap[eip] = fmap[eip] + i.length
+    src = i.operands[0]
+    m, d = {8: (al, ah), 16: (ax, dx), 32: (eax, edx)}[src.size]
+    n_ = fmap(composer([m, d])).signed()
+    s_ = fmap(src).signextend(n_.size).signed()
+    q_ = n_ / s_
+    r_ = n_ % s_
+    fmap[d] = r_[0 : src.size]
+    fmap[m] = q_[0 : src.size]
+
+
 def i_RDRAND(i, fmap):
     fmap[eip] = fmap[eip] + i.length
     dst = i.operands[0]
